@@ -32,6 +32,11 @@ def forall(ty, f):
     return all(f(x) for x in UNIVERSE.get(ty, []))
 
 
+def re_pmatch(pat, flags, s):
+    import re
+    return re.compile(pat, flags).match(s) is not None
+
+
 def none_of(ty):
     return None
 
@@ -41,7 +46,7 @@ def implies(a, b):
 
 
 def spec_env(*modules):
-    env = {'implies': implies, 're_match': re_match, 'forall': forall, 'none_of': none_of}
+    env = {'implies': implies, 're_match': re_match, 'forall': forall, 'none_of': none_of, 're_pmatch': re_pmatch}
     for m in modules:
         mod = importlib.import_module(m) if isinstance(m, str) else m
         for k, v in vars(mod).items():
